@@ -242,7 +242,7 @@ ARENA = {
         x=['scope-exit-did-not-restore-allocated', 'scope-exit-did-not-restore-position', 'scope-exit-released-a-chunk',
            'reset-to-start-did-not-rewind-to-the-first-chunk', 'block-contents-changed', 'panic'],
         mism=['stats', 'base-allocator-events'],
-        note='PARTIAL: restoration theorems and invariant preservation (reset_to, alloc_try_with Err, scoped_aligned exit) proved; replay_needs_no_chunk / reset_loop_converges not proved'),
+        note='PARTIAL: restoration theorems, invariant preservation (reset_to, alloc_try_with Err, scoped_aligned exit) and replay_needs_no_chunk proved; convergence of a reset() loop not proved (monitored)'),
     'C05': dict(
         x=['base-allocator-ledger', 'chunks-not-released-exactly-once-by-drop', 'reset-did-not-keep-exactly-the-largest-chunk',
            'reset-to-start-called-the-base-allocator', 'chunk-outside-granted-block', 'scope-exit-released-a-chunk', 'panic'],
@@ -259,7 +259,7 @@ ARENA = {
            'chunk-size-not-multiple-of-16', 'position-outside-content-range', 'position-not-multiple-of-min-align',
            'any-stats-differ-from-typed-stats', 'chunk-outside-granted-block', 'panic'],
         mism=['stats'],
-        note='PARTIAL: identities, position and geometry proved from the invariant; strict growth of chunk sizes and forward/backward list equality are monitored on the implementation only'),
+        note='identities, position and geometry proved from the invariant, strict growth of chunk sizes proved for every reachable state; PARTIAL: forward/backward list equality and the type-erased statistics are monitored on the implementation only (the model has one list)'),
     'C13': dict(
         x=['deallocate-changed-allocated-although-deallocation-is-off', 'shrink-decreased-allocated-although-shrinking-is-off',
            'block-contents-changed', 'live-blocks-overlap', 'grow-lost-contents', 'shrink-lost-contents', 'panic'],
@@ -276,12 +276,12 @@ ARENA.update({
         mism=['result-kind', 'handle-stats', 'stats', 'result-block'],
         note='claims: all clauses proved over the model (invariant through claims PARTIAL as C01)'),
     'C15': dict(
-        x=['prepare-moved-a-bump-position', 'prepared-capacity-smaller-than-requested', 'committed-slice-lost-contents',
+        x=['prepare-moved-a-bump-position', 'try-with-mut-panic-moved-a-position', 'try-with-mut-panic', 'prepared-capacity-smaller-than-requested', 'committed-slice-lost-contents',
            'commit-advanced-position-by-more-than-contents-plus-padding', 'block-contents-changed', 'live-blocks-overlap', 'panic'],
         mism=['prepared-range', 'result-block', 'block-contents', 'stats'],
         note='PARTIAL: prepare/fill/commit primitives (typed+dyn, forward+reverse) proved incl. invariant preservation and prepare => commit contract; the collection layer (growth policy) is exercised on the real MutBumpVec(Rev) only'),
     'C17': dict(
-        x=['panic', 'block-misaligned', 'live-blocks-overlap'],
+        x=['panic', 'block-misaligned', 'live-blocks-overlap', 'entry-points-differ'],
         mism=['result-block', 'result-kind', 'prepared-range', 'stats', 'block-contents'],
         note='PARTIAL: hint independence and dyn=typed commit proved; try_/panicking twins and Bump/BumpScope/reference forwarding are tied by running all entry points against one model function'),
     'C18': dict(
@@ -524,9 +524,9 @@ for _p in ARENA:
 # collection algorithms: C06 C08 C16 (and the collection-level clauses of C07)
 # ----------------------------------------------------------------------------------------
 COLLS = {
-    'C06': dict(x=['accounted', 'lost', 'unknown element', 'stale slot'],
-                note='PARTIAL: conservation proved for the modelled algorithms; splice / map / into_iter / append / partition are covered by the drop-count monitor only'),
-    'C08': dict(x=['std::vec::Vec', 'contents differ', 'returned values differ', 'capacity:', 'capacity ', 'overwrote a neighbouring allocation', 'accounted', 'lost'],
+    'C06': dict(x=['accounted', 'lost', 'unknown element', 'stale slot', 'drops do not match', 'was dropped while moving'],
+                note='PARTIAL: conservation proved for the modelled algorithms; into_iter / splice / map(_in_place, also panicking) / append / extend with lying size hints / resize_with / dedup_by_key / into_boxed_slice are covered by the drop-count monitor and std Vec in lock-step only (extras probe)'),
+    'C08': dict(x=['std::vec::Vec', 'contents differ', 'returned values differ', 'capacity:', 'capacity ', 'overwrote a neighbouring allocation', 'yielded', 'len() of the iterator', 'accounted', 'lost'],
                 note='PARTIAL: list-function refinement proved for the modelled operations; capacity clauses and unmodelled operations are checked against std::vec::Vec in lock-step only'),
     'C16': dict(x=['split_off capacities', 'split_off part', 'changed the remaining part', 'changed the split-off part', 'parts:'],
                 ops=['split_off'],
